@@ -56,8 +56,17 @@ func (t *Term) IsConst() bool { return t.op == OpConst }
 func (t *Term) IsBool() bool  { return t.w == 0 }
 
 // TermCtx hash-conses terms for one path execution.
+type termKey struct {
+	op         Op
+	w          int
+	c          uint64
+	name       string
+	a0, a1, a2 int
+	n          int
+}
+
 type TermCtx struct {
-	tab    map[string]*Term
+	tab    map[termKey]*Term
 	nextID int
 	vars   []*Term
 	apps   map[string][]int // uninterpreted function name -> arg widths + result width (last)
@@ -65,19 +74,32 @@ type TermCtx struct {
 }
 
 func newTermCtx() *TermCtx {
-	c := &TermCtx{tab: map[string]*Term{}, apps: map[string][]int{}}
+	c := &TermCtx{tab: map[termKey]*Term{}, apps: map[string][]int{}}
 	c.tt = c.mk(&Term{op: OpConst, w: 0, c: 1})
 	c.ff = c.mk(&Term{op: OpConst, w: 0, c: 0})
 	return c
 }
 
-func (c *TermCtx) key(t *Term) string {
-	var sb strings.Builder
-	fmt.Fprintf(&sb, "%d:%d:%d:%s", t.op, t.w, t.c, t.name)
-	for _, a := range t.args {
-		fmt.Fprintf(&sb, ",%d", a.id)
+func (c *TermCtx) key(t *Term) termKey {
+	k := termKey{op: t.op, w: t.w, c: t.c, name: t.name, a0: -1, a1: -1, a2: -1, n: len(t.args)}
+	switch len(t.args) {
+	case 0:
+	case 1:
+		k.a0 = t.args[0].id
+	case 2:
+		k.a0, k.a1 = t.args[0].id, t.args[1].id
+	case 3:
+		k.a0, k.a1, k.a2 = t.args[0].id, t.args[1].id, t.args[2].id
+	default:
+		// n-ary applications: fold the ids into the name
+		var sb strings.Builder
+		sb.WriteString(t.name)
+		for _, a := range t.args {
+			fmt.Fprintf(&sb, ",%d", a.id)
+		}
+		k.name = sb.String()
 	}
-	return sb.String()
+	return k
 }
 
 func (c *TermCtx) mk(t *Term) *Term {
